@@ -118,7 +118,7 @@ fn c13_defs(out: &mut dyn Write, tier: &str, rng: &mut Rng, st: &mut Stats) {
     let parse = |text: &str| -> Option<ParsedFormula> {
         match parse_text(text.as_bytes(), Some(ordering.clone())) { Parsed::Ok(pf) => Some(pf), _ => None }
     };
-    let hists = if tier == "thorough" { 3000 } else { 150 };
+    let hists = if tier == "thorough" { 20000 } else { 150 };
     for h in 0..hists {
         let mut term = |rng: &mut Rng, with_ref: Option<&str>| -> String {
             let names: Vec<String> = pool[..4].iter().map(|s| s.to_string()).collect();
@@ -174,7 +174,7 @@ fn c13_defs(out: &mut dyn Write, tier: &str, rng: &mut Rng, st: &mut Stats) {
 /// environment (what `rsbdd -b N` does): every evaluation must be the evaluation in a fresh environment
 fn c13_twice(out: &mut dyn Write, tier: &str, rng: &mut Rng, st: &mut Stats) {
     use crate::formula::*;
-    let n = if tier == "thorough" { 6000 } else { 300 };
+    let n = if tier == "thorough" { 40000 } else { 300 };
     for i in 0..n {
         let gf = c06_formula(rng, if i % 2 == 0 { 1 } else { i }, st);
         let gf = if i % 3 == 0 { GF::Bin(7, Box::new(gf.clone()), Box::new(gf)) } else { gf }; // the same fixed point twice in one formula
@@ -191,10 +191,61 @@ fn c13_twice(out: &mut dyn Write, tier: &str, rng: &mut Rng, st: &mut Stats) {
     }
 }
 
+/// several formulas, each with its own variable names, evaluated one after the other in ONE shared environment
+/// (`ParsedFormula::new_with_env`): every result must be the result in a fresh environment, and structurally
+/// equal sub-diagrams of all results so far must be one shared node
+fn c13_shared(out: &mut dyn Write, tier: &str, rng: &mut Rng, st: &mut Stats) {
+    use crate::formula::*;
+    use rsbdd::parser::ParsedFormula;
+    use rsbdd::NamedSymbol;
+    let n = if tier == "thorough" { 4000 } else { 200 };
+    for _ in 0..n {
+        let env: Rc<BDDEnv<NamedSymbol>> = Rc::new(BDDEnv::new());
+        let mut seen: HashMap<String, usize> = HashMap::new(); // structure (ids only) -> address
+        let steps = 2 + rng.below(4);
+        for _ in 0..steps {
+            // names in a random order, so that the same index carries different names in different formulas
+            let mut pool: Vec<String> = NAME_POOL[..6].iter().map(|s| s.to_string()).collect();
+            for i in (1..pool.len()).rev() { let j = rng.below(i as u64 + 1) as usize; pool.swap(i, j); }
+            let k = 2 + rng.below(3) as usize;
+            let names: Vec<String> = pool[..k].to_vec();
+            let gf = { let mut g = Gen { rng, names, allow_fix: false, big_consts: false, max_list: 3 }; let d = 1 + g.rng.below(3) as u32; g.gen(d, &HashMap::new()) };
+            let text = Printer { rng, noise: false }.print(&gf);
+            let pf = { let mut rd: &[u8] = text.as_bytes(); match ParsedFormula::new_with_env(Rc::clone(&env), &mut rd, None) { Ok(p) => p, Err(_) => continue } };
+            let fresh = match parse_text(text.as_bytes(), None) { Parsed::Ok(p) => match eval_guarded(&p) { Ok(b) => show_ns(&b), Err(_) => "PANIC".to_string() }, _ => continue };
+            crate::watchdog::enter(&text);
+            let res = eval_guarded(&pf);
+            crate::watchdog::leave();
+            match res {
+                Ok(b) => {
+                    writeln!(out, "C13|defs|{}||{}|{}", ser_real(&pf.bdd), show_ns(&b), fresh).unwrap();
+                    // sharing across everything handed out so far
+                    fn walk(b: &Rc<BDD<NamedSymbol>>, seen: &mut HashMap<String, usize>, bad: &mut Option<String>) {
+                        let key = show_ns(b);
+                        let addr = Rc::as_ptr(b) as usize;
+                        match seen.get(&key) {
+                            Some(a) if *a != addr => { if bad.is_none() { *bad = Some(key.clone()); } }
+                            Some(_) => return,
+                            None => { seen.insert(key, addr); }
+                        }
+                        if let BDD::Choice(t, _, f) = b.as_ref() { walk(t, seen, bad); walk(f, seen, bad); }
+                    }
+                    let mut bad = None;
+                    walk(&b, &mut seen, &mut bad);
+                    if let Some(k) = bad { writeln!(out, "C13|share|{}", k).unwrap(); }
+                }
+                Err(_) => { writeln!(out, "C13|defs|{}||PANIC|{}", ser_real(&pf.bdd), fresh).unwrap(); }
+            }
+            st.hit("shared.eval");
+        }
+    }
+}
+
 pub fn c13(out: &mut dyn Write, tier: &str, rng: &mut Rng, st: &mut Stats) {
     c13_defs(out, tier, rng, st);
     c13_twice(out, tier, rng, st);
-    let hists = if tier == "thorough" { 2000 } else { 60 };
+    c13_shared(out, tier, rng, st);
+    let hists = if tier == "thorough" { 12000 } else { 60 };
     for h in 0..hists {
         let env: BDDEnv<usize> = BDDEnv::new();
         let mut names = Names { map: HashMap::new() };
